@@ -104,10 +104,14 @@ def rollbackJournal (s : Eng) : Except String Eng := do
             | fuel2 + 1 =>
               match r.readFrame j with
               | (r, none) => .ok (r, s)
-              | (r, some (pgno, data)) => do
-                if pgno = 0 then throw "panic assertion failed: database pgno must be larger than zero"
-                let s ← liftM (writeDatabasePage s pgno data)
-                frames fuel2 r s
+              | (r, some (pgno, data)) =>
+                -- SQLite's playback rules: page zero or the lock page ends the segment, a page
+                -- beyond the original database size is skipped
+                if pgno = 0 ∨ pgno = 1073741824 / s.pageSize + 1 then .ok (r, s)
+                else if pgno > r.commit then frames fuel2 r s
+                else do
+                  let s ← liftM (writeDatabasePage s pgno data)
+                  frames fuel2 r s
           let (r, s) ← frames (j.size + 1) r s
           segs fuel r s
     let (r, s) ← segs (j.size + 1) { pageSize := s.pageSize } s
